@@ -166,7 +166,7 @@ def build_constraint(values: dict, form="scalar", masks=None):
             import zlib
 
             prm = np.random.default_rng(zlib.crc32(repr((pre, post, [i for i, _ in lst])).encode()))
-            if prm.random() < 0.6:
+            if prm.random() < 0.75:
                 lst = [lst[j] for j in prm.permutation(len(lst))]
             idxs = jnp.asarray([i for i, _ in lst], dtype=jnp.int32)
             vals = _real_value(np.stack([np.asarray(v) for _, v in lst]))
